@@ -939,6 +939,12 @@ func newBounds(d *Disj) *bounds {
 			b.idx[t.key] = len(b.idx)
 			if t.K == 'k' && (t.S == "len" || t.S == "cap") {
 				cs = append(cs, cons{"0", t.key, 0}) // 0 - len <= 0
+				if t.S == "len" && len(t.A) == 1 && t.A[0].K == 'k' {
+					// a filter returns no more elements than it was given
+					if k, ok := subSeqFuncs[t.A[0].S]; ok && k < len(t.A[0].A) {
+						cs = append(cs, cons{t.key, node(LenOf(t.A[0].A[k])), 0})
+					}
+				}
 			}
 			if t.K == 'b' && (t.S == "+" || t.S == "-") && len(t.A) == 2 && isIntegerType(t.Typ) {
 				ab, ao, ok1 := linear(t.A[0])
@@ -975,6 +981,37 @@ func newBounds(d *Disj) *bounds {
 		case a.Op == "eq" && !l.Neg:
 			addLe(lb, lo, rb, ro, 0)
 			addLe(rb, ro, lb, lo, 0)
+		}
+	}
+	// len(x) for an x that equals a filter's result: no longer than the filter's input
+	if len(subSeqFuncs) > 0 {
+		var lens []*Term
+		seenLen := map[string]bool{}
+		for _, l := range d.L {
+			for _, side := range []*Term{l.A.L, l.A.R} {
+				if side == nil {
+					continue
+				}
+				side.Mentions(func(t *Term) bool {
+					if t.K == 'k' && t.S == "len" && len(t.A) == 1 && !seenLen[t.key] {
+						seenLen[t.key] = true
+						lens = append(lens, t)
+					}
+					return false
+				})
+			}
+		}
+		for _, t := range lens {
+			if _, isNode := b.idx[t.key]; !isNode {
+				continue
+			}
+			for _, o := range d.EqualTerms(t.A[0]) {
+				if o.K == 'k' {
+					if k, ok := subSeqFuncs[o.S]; ok && k < len(o.A) {
+						cs = append(cs, cons{t.key, node(LenOf(o.A[k])), 0})
+					}
+				}
+			}
 		}
 	}
 	n := len(b.idx)
